@@ -39,6 +39,8 @@ MIN_REACH = {
     "failed_saves": {"quick": 25, "thorough": 400},
     "older_session_reused": {"quick": 12, "thorough": 200},
     "lazily_chunked_harvesters": {"quick": 15, "thorough": 300},
+    "histories_naming_the_engine_at_every_call": {"quick": 4, "thorough": 80},
+    "harvests_with_chunks_named_at_the_call": {"quick": 5, "thorough": 100},
     "memory_persisted_after_unsynced_steps": {"quick": 12, "thorough": 200},
     "unsynced_steps_before_first_save": {"quick": 25, "thorough": 400},
 }
@@ -160,7 +162,15 @@ def cases(ctx):
                 st["version"] = 0 if k == 0 else rng.choice([0, 1, 1, 2])
                 if rng.random() < 0.5:
                     st["a"], st["b"] = st["a"][:2], st["b"][:1]
-        yield {"steps": steps, "engine": engine, "mem_only": mem_only, "unsynced_prefix": prefix, "kind": kind,
+        # the engine is named at every call instead of at construction (harvest_* / add_ds take engine=): the Harvester
+        # itself is built with the OTHER engine; only the operations that load with the engine of the call take part
+        eac = (not mem_only and not lazy and not any(st.get("call_chunks") or st.get("nosync") or st["op"] == "persist" for st in steps)
+               and prefix == 0 and rng.random() < 0.3)
+        if eac:
+            for st in steps:
+                if st["op"] not in ("combos", "cases", "add_ds"):
+                    st["op"] = "combos"
+        yield {"steps": steps, "engine": engine, "mem_only": mem_only, "unsynced_prefix": prefix, "kind": kind, "engine_at_call": eac,
                "name": rng.choice(["hv", "hv_data", "full.v1"]) + (rng.choice(["", {"h5netcdf": ".h5", "joblib": ".dmp"}[engine]])),
                "extra_const": rng.random() < 0.3, "chunks": chunks}
 
@@ -205,9 +215,14 @@ def run_case(ctx, case):
     dims = ["a", "b"]
     model = {}                 # coordinate tuple (in `dims` order) -> {var: value}
     axes = {"a": set(), "b": set()}
+    eac = bool(case.get("engine_at_call"))
+    ctor_engine = engine if not eac else {"h5netcdf": "joblib", "joblib": "h5netcdf"}[engine]
+    ek = {"engine": engine} if eac else {}
+    if eac:
+        ctx.count("histories_naming_the_engine_at_every_call")
     # some session of this process keeps (or will keep) the data file open for lazy reading
     lazyish = bool(hkw) or (engine == "h5netcdf" and any(st.get("call_chunks") for st in case["steps"]))
-    h = xyzpy.Harvester(new_runner(0), data_name=data_name, engine=engine, **hkw)
+    h = xyzpy.Harvester(new_runner(0), data_name=data_name, engine=ctor_engine, **hkw)
     alive = [h]                # every session opened so far stays open (a long-lived object in another notebook)
     hist = []
     nviol = 0
@@ -275,7 +290,9 @@ def run_case(ctx, case):
             return      # memory-only harvester before its first harvest: nothing to read, nothing promised
         try:
             with quiet():
-                mem = h.full_ds
+                if eac and h._full_ds is None and data_name is not None:
+                    h.load_full_ds(engine=engine)       # (the property would load with the constructor's engine)
+                mem = h.full_ds if not (eac and h._full_ds is None) else h._full_ds
         except Exception as e:
             bad.append("reading full_ds raised %r" % (e,))
             mem = None
@@ -335,7 +352,7 @@ def run_case(ctx, case):
         if not sync and not case["mem_only"]:
             ctx.count("unsynced_steps_before_first_save")
         if (st["new_session"] or force_new) and not case["mem_only"]:
-            h = xyzpy.Harvester(new_runner(ver), data_name=data_name, engine=engine, **hkw)
+            h = xyzpy.Harvester(new_runner(ver), data_name=data_name, engine=ctor_engine, **hkw)
             alive.append(h)
             ctx.count("new_sessions")
             force_new = False
@@ -409,7 +426,7 @@ def run_case(ctx, case):
                         apply_model(pts, ver, policy)
                     except Conflict:
                         expect_conflict = True
-                    h.harvest_combos(combos, overwrite=policy, sync=sync, verbosity=0, **ck)
+                    h.harvest_combos(combos, overwrite=policy, sync=sync, verbosity=0, **ck, **ek)
                     desc = "harvest_combos(%s, overwrite=%s, v%d)" % ({k: ("..." if v is ... else v) for k, v in combos.items()}, policy, ver)
                 elif op == "cases":
                     pts = [{"a": a, "b": b} for a, b in st["pts"]]
@@ -419,7 +436,7 @@ def run_case(ctx, case):
                         apply_model(pts, ver, policy)
                     except Conflict:
                         expect_conflict = True
-                    h.harvest_cases([dict(p) for p in pts], overwrite=policy, sync=sync, verbosity=0, **ck)
+                    h.harvest_cases([dict(p) for p in pts], overwrite=policy, sync=sync, verbosity=0, **ck, **ek)
                     desc = "harvest_cases(%s, overwrite=%s, v%d)" % ([tuple(p.values()) for p in pts], policy, ver)
                 elif op in ("add_ds", "save_merge"):
                     pts = [{"a": a, "b": b} for a in st["a"] for b in st["b"]]
@@ -431,13 +448,13 @@ def run_case(ctx, case):
                     except Conflict:
                         expect_conflict = True
                     if op == "add_ds":
-                        h.add_ds(new_ds, overwrite=policy, sync=sync, **ck)
+                        h.add_ds(new_ds, overwrite=policy, sync=sync, **ck, **ek)
                         desc = "add_ds(%d points, overwrite=%s, v%d)" % (len(pts), policy, ver)
                     else:
                         h = None
                         xyzpy.save_merge_ds(new_ds, data_name, overwrite=policy, engine=engine)
                         desc = "save_merge_ds(%d points, overwrite=%s, v%d)" % (len(pts), policy, ver)
-                        h = xyzpy.Harvester(new_runner(ver), data_name=data_name, engine=engine, **hkw)
+                        h = xyzpy.Harvester(new_runner(ver), data_name=data_name, engine=ctor_engine, **hkw)
                         alive.append(h)
                         ctx.count("new_sessions")
                 elif op == "persist":
@@ -506,7 +523,7 @@ def run_case(ctx, case):
                 break
             ctx.count("conflicts_refused")
             if h is None:
-                h = xyzpy.Harvester(new_runner(ver), data_name=data_name, engine=engine, **hkw)
+                h = xyzpy.Harvester(new_runner(ver), data_name=data_name, engine=ctor_engine, **hkw)
                 alive.append(h)
             # memory and disk must be unchanged: judged below against the restored model
             h._vf_note = "after refused conflict"
